@@ -678,20 +678,10 @@ class Session:
             exec_op(tuple(op), self.root, self.out)
         self.start_tree = {p: v[0] for p, v in self.model.tree.items()}
         self.oldcwd = os.getcwd()
-        spelling = cfg.get("spelling", "abs")
-        given = self.root
-        if spelling in ("rel", "relslash"):
+        tw = cfg.get("twin")
+        if cfg.get("spelling", "abs") in ("rel", "relslash") or (tw and tw.get("spelling") in ("rel", "relslash", "reldot")):
             os.chdir(self.case)
-            given = cfg.get("root_name", "root")
-        if spelling in ("slash", "relslash"):
-            given = given + "/"
-        pt = cfg.get("pathtype", "bytes" if cfg.get("bytes") else "str")
-        if pt == "bytes":
-            given = os.fsencode(given)
-        elif pt == "path":
-            import pathlib
-
-            given = pathlib.Path(given)
+        given = self._spell(cfg.get("spelling", "abs"), cfg.get("pathtype", "bytes" if cfg.get("bytes") else "str"))
         self.given = given
         self.rec = Recorder()
         self.handler = self.rec.make_handler()
@@ -713,15 +703,63 @@ class Session:
 
             flt = [getattr(ev, n) for n in flt]
         self.watch = self.obs.schedule(self.handler, given, recursive=bool(cfg.get("recursive", True)), event_filter=flt)
+        self.given2 = None
+        if tw:
+            # the same directory scheduled a second time on the same observer, under another spelling, for another handler
+            self.given2 = self._spell(tw.get("spelling", "abs"), tw.get("pathtype", "str"))
+            self.rec2 = Recorder()
+            self.handler2 = self.rec2.make_handler()
+            self.pos2 = 0
+            if tw.get("first"):
+                self.obs.unschedule(self.watch)
+                self.watch2 = self.obs.schedule(self.handler2, self.given2, recursive=bool(cfg.get("recursive", True)), event_filter=flt)
+                self.watch = self.obs.schedule(self.handler, given, recursive=bool(cfg.get("recursive", True)), event_filter=flt)
+            else:
+                self.watch2 = self.obs.schedule(self.handler2, self.given2, recursive=bool(cfg.get("recursive", True)), event_filter=flt)
         self.obs.start()
         self.closed = False
 
+    def _spell(self, spelling, pt):
+        cfg = self.cfg
+        given = self.root
+        if spelling in ("rel", "relslash", "reldot"):
+            given = cfg.get("root_name", "root")
+        if spelling in ("slash", "relslash"):
+            given = given + "/"
+        if spelling in ("dot", "reldot"):
+            given = given + "/."
+        if pt == "bytes":
+            given = os.fsencode(given)
+        elif pt == "path":
+            import pathlib
+
+            given = pathlib.Path(given)
+        return given
+
     # -- paths
-    def norm(self, p):
+    def twin_events(self, cap=20.0):
+        """Events the second handler got since the last call, after waiting for the newest sentinel to show up there."""
+        name = f"{SENT}{self.nsent}"
+        end = time.monotonic() + cap
+        ok = False
+        with self.rec2.cond:
+            while True:
+                if any(self.norm(e.src_path, self.given2) == name and e.event_type == "created" for e in self.rec2.events[self.pos2 :]):
+                    ok = True
+                    break
+                left = end - time.monotonic()
+                if left <= 0:
+                    break
+                self.rec2.cond.wait(min(left, 1.0))
+            evs = self.rec2.events[self.pos2 :]
+            self.pos2 = len(self.rec2.events)
+        return evs, ok
+
+    def norm(self, p, g=None):
         """event path -> rel path inside root ('' for root) or None if outside; p str/bytes."""
         if isinstance(p, bytes):
             p = os.fsdecode(p)
-        g = self.given
+        g = self.given if g is None else g
         if isinstance(g, bytes):
             g = os.fsdecode(g)
         g = str(g)
